@@ -455,6 +455,53 @@ func rulePREC1(c *Ctx) {
 		}
 		c.Oblige("method-order:marshal", f.Pos(), strings.Join(gm, ",") == strings.Join(wm, ","), "installation order is "+strings.Join(gm, ",")+" (last wins; documented precedence needs "+strings.Join(wm, ",")+")")
 		c.Oblige("method-order:unmarshal", f.Pos(), strings.Join(gu, ",") == strings.Join(wu, ","), "installation order is "+strings.Join(gu, ",")+" (documented precedence needs "+strings.Join(wu, ",")+")")
+		// each wrapper falls back to the composition that existed right before it was installed:
+		// the captured `prev := fncs.marshal` lives in the same block as the closure that calls it
+		msigP, usigP := marshalerSig(p), unmarshalerSig(p)
+		for _, lit := range findAllDeep[*ast.FuncLit](f.Body()) {
+			lf := p.LitInfo(lit)
+			if lf == nil {
+				continue
+			}
+			if t := info.TypeOf(lit); t != nil {
+				if sg, ok := t.Underlying().(*types.Signature); !ok || !((msigP != nil && types.Identical(sg, msigP)) || (usigP != nil && types.Identical(sg, usigP))) {
+					continue
+				}
+			}
+			litBlock := p.Parent(f.File, p.Parent(f.File, lit)) // AssignStmt -> enclosing block
+			InspectNoLit(lit.Body, func(nd ast.Node) bool {
+				call, ok := nd.(*ast.CallExpr)
+				if !ok || Callee(info, call) != nil {
+					return true
+				}
+				v := IdentObj(info, call.Fun)
+				if v == nil {
+					return true
+				}
+				defs := defsOf(info, f.Body(), v)
+				if len(defs) != 1 {
+					return true
+				}
+				if fld := SelField(info, defs[0]); fld == nil || (fld.Name() != "marshal" && fld.Name() != "unmarshal") {
+					return true
+				}
+				// the definition statement's block
+				var defStmt ast.Node
+				ast.Inspect(f.Body(), func(m ast.Node) bool {
+					if as, ok := m.(*ast.AssignStmt); ok {
+						for i, l := range as.Lhs {
+							if IdentObj(info, l) == v && as.Tok == token.DEFINE && i < len(as.Rhs) {
+								defStmt = as
+							}
+						}
+					}
+					return true
+				})
+				sameBlock := defStmt != nil && p.Parent(f.File, defStmt) == litBlock
+				c.Oblige("fallback-to-previous:"+lf.Name, call.Pos(), sameBlock, "the wrapper falls back to `"+v.Name()+"`, which was not captured right before this wrapper was installed: declining with ErrUnsupported would skip the lower-priority methods")
+				return true
+			})
+		}
 		// early return for pointer and interface kinds
 		early := false
 		if len(f.Body().List) > 0 {
